@@ -1,6 +1,6 @@
 use std::borrow::Cow;
 use std::collections::BTreeMap;
-use std::path::{Path, PathBuf};
+use std::path::{Component, Path, PathBuf};
 
 use rustc_ast::ast;
 use rustc_ast::visit::Visitor;
@@ -290,21 +290,36 @@ impl<'ast, 'psess, 'c> ModResolver<'ast, 'psess> {
         sub_mod_kind: SubModKind<'c, 'ast>,
     ) -> Result<(), ModuleResolutionError> {
         match sub_mod_kind {
-            SubModKind::External(mod_path, _, sub_mod) => {
-                self.file_map
-                    .entry(FileName::Real(mod_path))
-                    .or_insert(sub_mod);
-            }
+            SubModKind::External(mod_path, _, sub_mod) => self.insert_file(mod_path, sub_mod),
             SubModKind::MultiExternal(mods) => {
                 for (mod_path, _, sub_mod) in mods {
-                    self.file_map
-                        .entry(FileName::Real(mod_path))
-                        .or_insert(sub_mod);
+                    self.insert_file(mod_path, sub_mod);
                 }
             }
             _ => (),
         }
         Ok(())
+    }
+
+    /// Adds a file to the map unless it is there already -- possibly under another spelling
+    /// of its path (`src/../src/b.rs` reached through `#[path]`): a file is formatted once
+    /// even if it is reached twice.
+    fn insert_file(&mut self, mod_path: PathBuf, sub_mod: Module<'ast>) {
+        let has_parent_dir = |p: &Path| p.components().any(|c| c == Component::ParentDir);
+        let new_has_parent_dir = has_parent_dir(&mod_path);
+        let mut canonical = None;
+        let known = self.file_map.keys().any(|name| match name {
+            FileName::Real(path) if new_has_parent_dir || has_parent_dir(path) => {
+                let canonical = canonical.get_or_insert_with(|| mod_path.canonicalize().ok());
+                canonical.is_some() && path.canonicalize().ok() == *canonical
+            }
+            _ => false,
+        });
+        if !known {
+            self.file_map
+                .entry(FileName::Real(mod_path))
+                .or_insert(sub_mod);
+        }
     }
 
     fn visit_sub_mod_inner(
